@@ -55,7 +55,15 @@ def worker_main(args):
     prop = PROPS[pid]
     n = 0
     idx = start
-    agg = {"runs": 0, "events": 0, "stats": {}, "probes": {}, "nontrivial": 0, "distinct": set(), "states": set(), "samples": [], "known": {}, "violations": []}
+    agg = {"runs": 0, "events": 0, "stats": {}, "probes": {}, "nontrivial": 0, "distinct": set(), "states": set(), "samples": [], "known": {}, "violations": [], "coverage": {}}
+    cov = None
+    if start == 0:
+        try:
+            import coverage
+
+            cov = coverage.Coverage(data_file=None, include=[os.path.join(env.REPO_SRC, "mygrad", x) for x in ("tensor_base.py", "operation_base.py", "_io.py", "_utils/*.py", "_tensor_core_ops/indexing.py")])
+        except Exception:
+            cov = None
     while True:
         if max_runs is not None and n >= max_runs:
             break
@@ -63,8 +71,15 @@ def worker_main(args):
             break
         run_seed = h64(seed, pid, idx)
         hist = gen_history(pid, run_seed)
+        measure = cov is not None and n % 25 == 0
         try:
-            w = run_history(hist)
+            if measure:
+                cov.start()
+            try:
+                w = run_history(hist)
+            finally:
+                if measure:
+                    cov.stop()
         except Exception as e:  # harness failure: never a pass, never a violation
             import traceback
 
@@ -106,6 +121,17 @@ def worker_main(args):
                     break
         idx += stride
         n += 1
+    if cov is not None:
+        try:
+            data = cov.get_data()
+            for f in data.measured_files():
+                try:
+                    _, stmts, _, missing, _ = cov.analysis2(f)
+                    agg["coverage"][os.path.relpath(f, env.REPO_SRC)] = {"statements": len(stmts), "executed": len(stmts) - len(missing)}
+                except Exception:
+                    pass
+        except Exception:
+            pass
     agg["distinct"] = sorted(agg["distinct"])
     agg["states"] = len(agg["states"])
     agg["type"] = "summary"
@@ -177,7 +203,7 @@ def run_check(pid, tier, seed, workers=None, budget=None, max_runs=None, digests
                 harness_errors.append(f"worker exit {p.returncode}: {err[-1500:]}")
             elif err and err.strip() and os.environ.get("MGSIM_DEBUG"):
                 sys.stderr.write(err[-3000:])
-        agg = {"runs": 0, "events": 0, "stats": {}, "probes": {}, "nontrivial": 0, "distinct": set(), "samples": [], "known": {}, "cpu_wall": 0.0}
+        agg = {"runs": 0, "events": 0, "stats": {}, "probes": {}, "nontrivial": 0, "distinct": set(), "samples": [], "known": {}, "cpu_wall": 0.0, "coverage": {}}
         violations = []
         digest_lines = []
         for p, outp in procs:
@@ -201,6 +227,8 @@ def run_check(pid, tier, seed, workers=None, budget=None, max_runs=None, digests
                         e = agg["known"].setdefault(k, {"count": 0, "example_seed": v["example_seed"], "msg": v["msg"]})
                         e["count"] += v["count"]
                     agg["samples"].extend(rec["samples"])
+                    for k, v in rec.get("coverage", {}).items():
+                        agg["coverage"][k] = v
                 elif rec["type"] == "violation":
                     violations.append(rec)
                 elif rec["type"] == "harness_error":
@@ -312,6 +340,8 @@ def write_evidence(pid, tier, seed, agg, wall, nviol, workers, prop):
             "probes": dict(sorted(agg["probes"].items())),
             "probes_stuck_at_zero": zero_probes,
             "known_findings_hit": {k: v["count"] for k, v in agg["known"].items()},
+            "line_coverage_of_anchored_files_on_a_4pct_sample_of_worker_0": agg.get("coverage", {}),
+            "distinct_interleavings_measure": "distinct sequences of (event kind, outcome class) over whole histories = distinct_nontrivial (restricted to non-trivial ones)",
             "real_vs_stub": REAL_VS_STUB,
         },
         "assumptions": [
